@@ -50,6 +50,8 @@ type inst struct {
 	started  atomic.Bool
 	seen     atomic.Bool
 	returned atomic.Bool
+	childOrd string      // kind `a`: the order (token) of the worker the handler registers from inside
+	nested   atomic.Bool // kind `a`: the nested registration has returned
 }
 
 type world struct {
@@ -72,6 +74,35 @@ type world struct {
 	panics    []string     // "api: message" of recovered panics of daemon calls
 	ranRun    bool
 	obs       bool // `obs on`: every answer of a sequential case is followed by the observable state
+	xobs      []xob
+	isParked  atomic.Bool
+}
+
+// xob is one observation of the stopped context and the stopped flag (context read first), with the logical times of
+// its begin and end.  Kinds: seen (by a handler after it observed its own cancellation), sdret (after ShutdownAndWait
+// returned), refused (after BackgroundWorker returned ErrDaemonAlreadyStopped), any.
+type xob struct {
+	kind      string
+	ctx, flag bool
+	tb, te    int64
+}
+
+func (w *world) observe(kind string) xob {
+	o := xob{kind: kind, tb: w.clk.Add(1)}
+	hx.Safely(func() {
+		o.ctx = w.d.ContextStopped().Err() != nil
+		o.flag = w.d.IsStopped()
+	})
+	o.te = w.clk.Add(1)
+	w.mu.Lock()
+	w.xobs = append(w.xobs, o)
+	w.mu.Unlock()
+	if o.ctx || o.flag {
+		// a cancelled stopped context is the same evidence of a begun shutdown as IsStopped() == true
+		w.log("stopseen")
+	}
+
+	return o
 }
 
 // api is the surface of the daemon the scripts drive: an OrderedDaemon instance, or the package-level wrappers around the
@@ -178,7 +209,11 @@ func (w *world) newInst(name, order int, kind string) *inst {
 	w.mu.Lock()
 	defer w.mu.Unlock()
 	w.nextID++
-	in := &inst{id: w.nextID, name: name, order: order, kind: kind, finish: make(chan struct{})}
+	childOrd := ""
+	if k, c, ok := strings.Cut(kind, "@"); ok {
+		kind, childOrd = k, c
+	}
+	in := &inst{id: w.nextID, name: name, order: order, kind: kind, childOrd: childOrd, finish: make(chan struct{})}
 	w.insts = append(w.insts, in)
 	if w.allKicked.Load() {
 		// registered by a `go bw` that was scheduled after `kickall`: it must not stay gated for ever
@@ -211,11 +246,38 @@ func (w *world) handler(in *inst) daemon.WorkerFunc {
 	return func(ctx context.Context) {
 		in.started.Store(true)
 		w.log(fmt.Sprintf("start %d %d %d", in.id, in.name, in.order))
-		if in.kind != "x" {
+		switch in.kind {
+		case "a":
+			// the handler calls back into the daemon: it registers another worker from inside
+			w.bw(in.name+20, in.childOrd, "c")
+			in.nested.Store(true)
+		case "k":
+			// the handler shuts the daemon down from inside (asynchronously: ShutdownAndWait would wait for itself)
+			select {
+			case <-in.finish:
+				w.d.Shutdown()
+			case <-ctx.Done():
+			}
+		case "q":
+			// a worker that reacts to ContextStopped() instead of its own context: it returns once the daemon is stopped
+			select {
+			case <-w.d.ContextStopped().Done():
+				w.log("stopseen")
+			case <-in.finish:
+			}
+		}
+		if in.kind != "x" && in.kind != "q" {
 			select {
 			case <-ctx.Done():
 				in.seen.Store(true)
 				w.log(fmt.Sprintf("seen %d", in.id))
+				// no worker context is cancelled before the stopped context and the stopped flag
+				w.observe("seen")
+				if in.kind == "a" || in.kind == "k" {
+					// after shutdown no worker can be added or started — also not from inside a handler
+					w.bw(in.name+40, "0", "c")
+					w.guarded("Start", func() { w.d.Start() })
+				}
 				w.afterSeen(in)
 			case <-in.finish:
 			}
@@ -310,6 +372,9 @@ func (w *world) bw(name int, orderTok string, kind string) string {
 		w.mu.Unlock()
 	}
 	w.log(fmt.Sprintf("bwret %d %d %s", in.id, name, res))
+	if res == "stopped" {
+		w.observe("refused")
+	}
 
 	return res
 }
@@ -365,6 +430,9 @@ func (w *world) quiesce() bool {
 			if in.kind != "call" && !in.started.Load() && w.latest(in.name) == in && contains(names, strconv.Itoa(in.name)) {
 				return false
 			}
+			if in.kind == "a" && in.started.Load() && !in.nested.Load() {
+				return false // the registration from inside the handler has not returned yet
+			}
 			due := in.started.Load() && (in.kind == "x" || in.finReq.Load() || in.returned.Load() || in.seen.Load())
 			if !due {
 				continue
@@ -413,6 +481,7 @@ func (w *world) sdw() string {
 	res := w.guarded("ShutdownAndWait", func() { w.d.ShutdownAndWait() })
 	if res == "ok" {
 		w.log(fmt.Sprintf("sdret %d", c))
+		w.observe("sdret")
 	}
 
 	return res
@@ -566,6 +635,9 @@ func (w *world) exec(r *rec, op string) string {
 			w.log("stopseen")
 		}
 		ans = strconv.FormatBool(b)
+	case "ctxflag":
+		o := w.observe("any")
+		ans = strconv.FormatBool(o.ctx) + " " + strconv.FormatBool(o.flag)
 	case "sdw":
 		ans = w.sdw()
 	case "sd":
@@ -590,15 +662,26 @@ func (w *world) exec(r *rec, op string) string {
 		hookArmed.Store(1)
 		name, order, kind := atoi(1), f[2], f[3]
 		w.parkWg.Add(1)
-		w.spawn(func() { defer w.parkWg.Done(); w.bw(name, order, kind) })
+		returned := make(chan struct{})
+		w.spawn(func() { defer w.parkWg.Done(); defer close(returned); w.bw(name, order, kind) })
 		select {
 		case <-w.parked:
+			w.isParked.Store(true)
+		case <-returned:
+			// the call returned at its first stopped check (a handler has shut the daemon down already): nothing to park
+			hookArmed.Store(0)
+			ans = "notparked"
 		case <-time.After(w.guard()):
 			hookArmed.Store(0)
 			w.log("timeout")
 			ans = "timeout"
 		}
 	case "release":
+		if !w.isParked.Swap(false) {
+			ans = "noparked" // nothing is parked (the armed call returned at its first stopped check)
+
+			break
+		}
 		select {
 		case w.release <- struct{}{}:
 		case <-time.After(w.guard()):
@@ -755,6 +838,7 @@ func runCase(script []string) *caseResult {
 		ans := w.exec(r, op)
 		r.Count("op:" + strings.Join(strings.Fields(op)[:min(2, len(strings.Fields(op)))], "-"))
 		if f := strings.Fields(strings.TrimPrefix(op, "go ")); len(f) == 4 && (f[0] == "bw" || f[0] == "park") {
+			r.Count("worker-kind:" + strings.SplitN(f[3], "@", 2)[0])
 			switch {
 			case f[2] == "-":
 				r.Count("bw-order-args:none")
@@ -785,7 +869,15 @@ func runCase(script []string) *caseResult {
 		r.Line("ev "+e, "ok")
 		r.Count("ev:" + strings.Fields(e)[0])
 	}
-	verdict := oracle(r, w, evs, script)
+	w.mu.Lock()
+	xobs := append([]xob(nil), w.xobs...)
+	w.mu.Unlock()
+	sort.Slice(xobs, func(i, j int) bool { return xobs[i].tb < xobs[j].tb })
+	for _, o := range xobs {
+		r.Line(fmt.Sprintf("xo %s %t %t %d %d", o.kind, o.ctx, o.flag, o.tb, o.te), "ok")
+		r.Count(fmt.Sprintf("xo:%s:ctx=%t,flag=%t", o.kind, o.ctx, o.flag))
+	}
+	verdict := oracle(r, w, evs, xobs, script)
 	r.Line("verdict", verdict)
 	r.Line("check", checkAnswer(r.res))
 	r.Count("verdict:" + verdict)
